@@ -29,12 +29,13 @@ PID = "C37"
 
 STATE_FIELDS = ["time", "qpos", "qvel", "act", "history", "qacc_warmstart", "ctrl", "qfrc_applied", "xfrc_applied", "eq_active", "mocap_pos", "mocap_quat", "userdata"]
 
-XML = """<mujoco><option integrator="{integ}"><flag {flag}/></option><size nuserdata="2"/><worldbody><geom type="plane" size="5 5 .1"/>
+XML = """<mujoco><option integrator="{integ}" {solver}><flag {flag}/></option><size nuserdata="2"/><worldbody><geom type="plane" size="5 5 .1"/>
 <body pos="0 0 .09"><freejoint/><geom size=".1"/></body>
-<body name="b" pos="1 0 1"><joint name="j" axis="0 1 0" damping="0.1" limited="true" range="-1 1"/><geom size=".1" pos=".2 0 0"/>
+<body name="b" pos="1 0 1"><joint name="j" axis="0 1 0" damping="0.1" armature="0.05" limited="true" range="-1 1"/><geom size=".1" pos=".2 0 0"/>
  <body pos=".4 0 0"><joint name="j2" axis="0 1 0" damping="0.05"/><geom size=".08" pos=".2 0 0"/></body></body>
 <body name="f" pos="2 0 1"><freejoint/><geom size=".1" contype="0" conaffinity="0"/></body>
 <body name="mc" pos="2 0 1" mocap="true"><geom size=".05" contype="0" conaffinity="0"/></body></worldbody>
+<tendon><fixed name="t" armature="0.3"><joint joint="j" coef="1"/><joint joint="j2" coef="-0.5"/></fixed></tendon>
 <equality><weld body1="f" body2="mc" active="true"/></equality>
 <actuator><general name="a0" joint="j" dyntype="integrator" {adelay}/><motor name="a1" joint="j2" gear="2"/></actuator>
 <sensor><jointpos joint="j" {sdelay}/><jointvel joint="j"/><actuatorfrc actuator="a0"/></sensor></mujoco>"""
@@ -44,10 +45,15 @@ XML_SLEEP = """<mujoco><option integrator="{integ}"><flag sleep="enable"/></opti
 <body pos="1 0 .1"><freejoint/><geom size=".1"/></body></worldbody></mujoco>"""
 
 
-def xml_for(integ="Euler", delay=True, sleep=False):
+SOLVERS = {"Newton": 'solver="Newton"', "CG4": 'solver="CG" iterations="4"', "CG": 'solver="CG"'}
+
+
+def xml_for(integ="Euler", delay=True, sleep=False, solver="Newton"):
+  """model family of the compose / forward units: joint armature, tendon armature (both enter M), joint limit, contact,
+  weld to a mocap body, delayed + direct actuators, delayed sensor; solver Newton / CG / CG capped at 4 iterations"""
   if sleep:
     return XML_SLEEP.format(integ=integ)
-  return XML.format(integ=integ, flag="", adelay='delay="0.004" nsample="3"' if delay else "", sdelay='delay="0.004" nsample="2"' if delay else "")
+  return XML.format(integ=integ, solver=SOLVERS[solver], flag="", adelay='delay="0.004" nsample="3"' if delay else "", sdelay='delay="0.004" nsample="2"' if delay else "")
 
 
 def build(xml, nworld=2):
@@ -116,68 +122,80 @@ def sigs(ls, ren=None):
 # ------------------------------------------------------------------------------------------------ step == step1;step2
 
 
+COMPOSE_FIELDS = ["qpos", "qvel", "act", "time", "history", "qacc_warmstart", "sensordata", "energy", "qacc", "actuator_force", "qacc_smooth", "qfrc_smooth", "qfrc_constraint", "qfrc_actuator", "qfrc_passive", "qfrc_bias", "M", "act_dot", "xpos", "cvel", "solver_niter"]
+FACTOR_FIELDS = ["qLD", "qLDiagInv"]  # compared unless sleep is enabled (step() then never factorises M)
+
+
 def native_compose(integ, sleep):
-  """real step() vs step1();step2() (and mujoco) from the same state; -> (same, details)"""
+  """real step() vs step1();step2() (and mujoco) from the same user-modified state, for Newton, CG and CG capped at 4
+  iterations (the cap makes everything that enters the solver's start point / preconditioner visible); every Data field the
+  compose claim covers is compared.  -> (same, details)"""
   import copy
 
   import mujoco
 
   import mujoco_warp as mjw
 
-  mjm = mujoco.MjModel.from_xml_string(xml_for(integ, sleep=sleep))
-  mjd = mujoco.MjData(mjm)
-  rng = np.random.default_rng(3)
-  if sleep:
-    for _ in range(400):  # let both spheres fall asleep
-      mujoco.mj_step(mjm, mjd)
-  else:
-    mjd.qvel[:] = rng.uniform(-0.5, 0.5, size=mjm.nv)
-    mjd.ctrl[:] = 0.7
-    for _ in range(3):
-      mujoco.mj_step(mjm, mjd)
-  m = mjw.put_model(mjm)
-  da, db = mjw.put_data(mjm, mjd), mjw.put_data(mjm, mjd)
-  ma, mb = copy.copy(mjd), copy.copy(mjd)
-  if not sleep:  # the user sets a new state and control before stepping: every derived quantity in Data is stale
-    qv = rng.uniform(-1, 1, size=mjm.nv)
-    hinge = [0.4, -0.7]
-    for dd in (da, db):
-      v = dd.qvel.numpy()
-      v[0, :] = qv
-      dd.qvel = wp.array(v, dtype=float)
-      q = dd.qpos.numpy()
-      q[0, 7:9] = hinge
-      dd.qpos = wp.array(q, dtype=float)
-      dd.ctrl.fill_(-3.0)
-    for mm in (ma, mb):
-      mm.qvel[:] = qv
-      mm.qpos[7:9] = hinge
-      mm.ctrl[:] = -3.0
-  if sleep:  # user input: push the first (sleeping) sphere upwards
-    for dd in (da, db):
-      x = dd.xfrc_applied.numpy()
-      x[0, 1, 2] = 50.0
-      dd.xfrc_applied = wp.array(x, dtype=wp.spatial_vector)
-    ma.xfrc_applied[1, 2] = 50.0
-    mb.xfrc_applied[1, 2] = 50.0
-  mjw.step(m, da)
-  mjw.step1(m, db)
-  mjw.step2(m, db)
-  mujoco.mj_step(mjm, ma)
-  mujoco.mj_step1(mjm, mb)
-  mujoco.mj_step2(mjm, mb)
   out = {}
   same = True
-  for f in ("qpos", "qvel", "act", "time", "history", "qacc_warmstart", "sensordata", "energy", "qacc", "actuator_force", "qacc_smooth", "qfrc_smooth", "qfrc_constraint"):
-    a, b = getattr(da, f).numpy()[0], getattr(db, f).numpy()[0]
-    ok = bool(np.allclose(a, b, rtol=1e-4, atol=1e-6))
-    same = same and ok
-    out[f] = {"mjwarp step": np.asarray(a).tolist(), "mjwarp step1;step2": np.asarray(b).tolist(), "equal": ok}
-    if hasattr(ma, f):
-      out[f]["mujoco step"] = np.asarray(getattr(ma, f)).tolist()
-      out[f]["mujoco step1;step2"] = np.asarray(getattr(mb, f)).tolist()
-  if sleep:
-    out["tree_asleep"] = {"mjwarp step": da.tree_asleep.numpy()[0].tolist(), "mjwarp step1;step2": db.tree_asleep.numpy()[0].tolist(), "mujoco step": ma.tree_asleep.tolist(), "mujoco step1;step2": mb.tree_asleep.tolist()}
+  for solver in (["Newton"] if sleep else ["Newton", "CG4", "CG"]):
+    mjm = mujoco.MjModel.from_xml_string(xml_for(integ, sleep=sleep, solver=solver))
+    mjd = mujoco.MjData(mjm)
+    rng = np.random.default_rng(3)
+    if sleep:
+      for _ in range(400):  # let both spheres fall asleep
+        mujoco.mj_step(mjm, mjd)
+    else:
+      mjd.qvel[:] = rng.uniform(-0.5, 0.5, size=mjm.nv)
+      mjd.ctrl[:] = 0.7
+      for _ in range(3):
+        mujoco.mj_step(mjm, mjd)
+    m = mjw.put_model(mjm)
+    m.opt.warn_overflow = False
+    da, db = mjw.put_data(mjm, mjd), mjw.put_data(mjm, mjd)
+    ma, mb = copy.copy(mjd), copy.copy(mjd)
+    if not sleep:  # the user sets a new state and control before stepping: every derived quantity in Data is stale
+      qv = rng.uniform(-1, 1, size=mjm.nv)
+      hinge = [0.4, -0.7]
+      for dd in (da, db):
+        v = dd.qvel.numpy()
+        v[0, :] = qv
+        dd.qvel = wp.array(v, dtype=float)
+        q = dd.qpos.numpy()
+        q[0, 7:9] = hinge
+        dd.qpos = wp.array(q, dtype=float)
+        dd.ctrl.fill_(-3.0)
+      for mm in (ma, mb):
+        mm.qvel[:] = qv
+        mm.qpos[7:9] = hinge
+        mm.ctrl[:] = -3.0
+    if sleep:  # user input: push the first (sleeping) sphere upwards
+      for dd in (da, db):
+        x = dd.xfrc_applied.numpy()
+        x[0, 1, 2] = 50.0
+        dd.xfrc_applied = wp.array(x, dtype=wp.spatial_vector)
+      ma.xfrc_applied[1, 2] = 50.0
+      mb.xfrc_applied[1, 2] = 50.0
+    mjw.step(m, da)
+    mjw.step1(m, db)
+    mjw.step2(m, db)
+    mujoco.mj_step(mjm, ma)
+    mujoco.mj_step1(mjm, mb)
+    mujoco.mj_step2(mjm, mb)
+    res = {}
+    for f in COMPOSE_FIELDS + ([] if sleep else FACTOR_FIELDS):
+      a, b = np.asarray(getattr(da, f).numpy()[0], dtype=float), np.asarray(getattr(db, f).numpy()[0], dtype=float)
+      ok = bool(np.allclose(a, b, rtol=1e-4, atol=1e-6))
+      same = same and ok
+      res[f] = {"equal": ok, "max |step - step1;step2|": float(np.max(np.abs(a - b))) if a.size else 0.0}
+      if not ok or f in ("qpos", "qvel", "qacc", "qacc_smooth"):
+        res[f].update({"mjwarp step": a.tolist(), "mjwarp step1;step2": b.tolist()})
+        if hasattr(ma, f) and f not in ("M", "qLD", "qLDiagInv"):
+          res[f]["mujoco step"] = np.asarray(getattr(ma, f)).tolist()
+          res[f]["mujoco step1;step2"] = np.asarray(getattr(mb, f)).tolist()
+    if sleep:
+      res["tree_asleep"] = {"mjwarp step": da.tree_asleep.numpy()[0].tolist(), "mjwarp step1;step2": db.tree_asleep.numpy()[0].tolist(), "mujoco step": ma.tree_asleep.tolist(), "mujoco step1;step2": mb.tree_asleep.tolist()}
+    out[solver] = res
   return same, out
 
 
@@ -187,7 +205,7 @@ def compose_replay(ctx, integ, sleep, what):
     os.makedirs(os.path.join(report.VERIF, "replays", PID), exist_ok=True)
     path = os.path.join(report.VERIF, "replays", PID, f"{ctx.unit.replace('/', '_')}.{what}.json")
     with open(path, "w") as f:
-      json.dump({"property": PID, "xml": xml_for(integ, sleep=sleep), "how": ("both spheres asleep after 400 mj_step, put_data, then xfrc_applied[body 1, z] = 50 (user input before the step); " if sleep else "random qvel, ctrl 0.7, 3 mj_step, put_data, then new qvel / hinge angle / ctrl set by the user; ") + "put_data twice; mjw.step vs mjw.step1 + mjw.step2 (mujoco's own mj_step vs mj_step1 + mj_step2 for comparison)", "fields": out, "step equals step1;step2": same}, f, indent=1)
+      json.dump({"property": PID, "xml": xml_for(integ, sleep=sleep), "how": ("both spheres asleep after 400 mj_step, put_data, then xfrc_applied[body 1, z] = 50 (user input before the step); " if sleep else "random qvel, ctrl 0.7, 3 mj_step, put_data, then new qvel / hinge angle / ctrl set by the user; ") + "put_data twice; mjw.step vs mjw.step1 + mjw.step2 (mujoco's own mj_step vs mj_step1 + mj_step2 for comparison); solvers Newton, CG capped at 4 iterations, CG; fields " + ", ".join(COMPOSE_FIELDS + ([] if sleep else FACTOR_FIELDS)), "solver option": SOLVERS, "fields": out, "step equals step1;step2": same}, f, indent=1)
     return (not same), path
 
   return _rp
